@@ -39,11 +39,21 @@ type fnItem struct {
 
 func concretiseFootnoteDoc(items []fnItem, variant int) string {
 	var b strings.Builder
+	prevDef := false
 	for i, it := range items {
+		wasDef := prevDef
+		prevDef = it.K == "def"
 		if it.K == "def" {
 			body := fmt.Sprintf("note %s%d", it.L, i)
 			if it.Ref != "none" && it.Ref != "" {
 				body += " see[^" + it.Ref + "]"
+			}
+			if wasDef && variant%4 == 3 {
+				// a definition inside a block quote / list item / directly inside the body of the
+				// previous definition: still a definition of the document
+				pre := []string{"    > ", "    - ", "    "}[(variant/4+i)%3]
+				b.WriteString(pre + "[^" + it.L + "]: " + body + "\n\n")
+				continue
 			}
 			switch variant % 3 {
 			case 1:
